@@ -107,6 +107,10 @@ pub struct Replica {
     pub heads: Vec<BTreeSet<String>>,
     /// set after a panic inside the replica (locks may be poisoned)
     pub dead: Option<String>,
+    /// (only with World.track) view + tree dumps recorded when heads[k] was first seen
+    pub head_views: Vec<Value>,
+    /// (only with World.track) view + tree dumps at the last moment nothing was staged
+    pub last_clean: Option<Value>,
 }
 
 #[derive(Clone, Debug, PartialEq)]
@@ -142,6 +146,8 @@ pub struct World {
     pub reps: Vec<Replica>,
     pub menu: std::sync::Arc<Menu>,
     pub trace: Vec<Op>,
+    /// record views at every head set / clean moment (C14, C15)
+    pub track: bool,
 }
 
 pub fn open(store: &Store) -> Result<Melda, String> {
@@ -173,12 +179,15 @@ impl World {
                 store,
                 heads: vec![],
                 dead: None,
+                head_views: vec![],
+                last_clean: None,
             });
         }
         World {
             reps,
             menu,
             trace: vec![],
+            track: false,
         }
     }
 
@@ -192,7 +201,17 @@ impl World {
     }
 
     pub fn build(nrep: usize, menu: std::sync::Arc<Menu>, hist: &[Op]) -> World {
+        Self::build_tracked(nrep, menu, hist, false)
+    }
+
+    pub fn build_tracked(
+        nrep: usize,
+        menu: std::sync::Arc<Menu>,
+        hist: &[Op],
+        track: bool,
+    ) -> World {
         let mut w = World::new(nrep, menu);
+        w.track = track;
         for op in hist {
             w.apply(op);
         }
@@ -212,8 +231,19 @@ impl World {
             }
         });
         if let Ok(Some(a)) = ok {
+            let snap = if self.track {
+                Some(json!({"view": view(&rep.m), "trees": trees(&rep.m)}))
+            } else {
+                None
+            };
             if !a.is_empty() && !rep.heads.contains(&a) {
                 rep.heads.push(a);
+                if let Some(s) = &snap {
+                    rep.head_views.push(s.clone());
+                }
+            }
+            if snap.is_some() {
+                rep.last_clean = snap;
             }
         }
     }
@@ -421,6 +451,35 @@ impl Default for KeyOpts {
             caches: true,
             heads: false,
         }
+    }
+}
+
+/// Dump of every revision tree: uuid -> [(rev, parent, staged)]
+pub fn trees(m: &Melda) -> Value {
+    match call("trees", || {
+        let mut t = Map::new();
+        for uuid in m.get_all_objects() {
+            t.insert(uuid.clone(), json!(m.verif_dump_tree(&uuid)));
+        }
+        Value::Object(t)
+    }) {
+        Ok(v) => v,
+        Err(p) => json!({ "panic": p }),
+    }
+}
+
+/// Staged change records + staged objects as a canonical (sorted) value
+pub fn stage_export(m: &Melda) -> Value {
+    match call("stage", || m.stage()) {
+        Ok(Ok(None)) => Value::Null,
+        Ok(Ok(Some(mut v))) => {
+            if let Some(c) = v.get_mut("c").and_then(|c| c.as_array_mut()) {
+                c.sort_by_key(|x| x.to_string());
+            }
+            v
+        }
+        Ok(Err(e)) => json!({ "err": e.to_string() }),
+        Err(p) => json!({ "panic": p }),
     }
 }
 
